@@ -75,16 +75,32 @@ type instr struct {
 	pm    *MockManager
 }
 
-func (in *instr) touched() bool {
-	return len(in.store.Calls) > 0 || in.rev.calls > 0 || (in.pm != nil && len(in.pm.Gets) > 0)
+func (in *instr) count() int {
+	n := len(in.store.Calls) + in.rev.calls
+	if in.pm != nil {
+		n += len(in.pm.Gets)
+	}
+	return n
+}
+
+func (in *instr) touched() bool { return in.count() > 0 }
+
+// shared is ONE long-lived verifier on which a history of calls is made.
+type shared struct {
+	v  bothVerifier
+	in *instr
 }
 
 const blobPolicyName = "p"
 
-func (w *world) build(c cfg, blob bool) (interface {
+type bothVerifier interface {
 	notation.Verifier
 	notation.BlobVerifier
-}, *instr, error) {
+}
+
+// build constructs a verifier with an OCI policy (mode 0), a blob policy
+// (mode 1) or both (mode 2: the long-lived verifier of a history).
+func (w *world) build(c cfg, mode int) (bothVerifier, *instr, error) {
 	in := &instr{store: NewMockStore(), rev: &c01Rev{fail: c.Rev == 1}}
 	k := StoreKey{Type: truststore.TypeCA, Name: "s"}
 	switch c.Store {
@@ -113,13 +129,14 @@ func (w *world) build(c cfg, blob bool) (interface {
 		}
 	}
 	opts := verifier.VerifierOptions{RevocationCodeSigningValidator: in.rev}
-	if blob {
+	if mode >= 1 {
 		opts.BlobTrustPolicy = &trustpolicy.BlobDocument{Version: "1.0", TrustPolicies: []trustpolicy.BlobTrustPolicy{{
 			Name:                  blobPolicyName,
 			SignatureVerification: trustpolicy.SignatureVerification{VerificationLevel: c.Level, Override: ov},
 			TrustStores:           stores, TrustedIdentities: ids,
 		}}}
-	} else {
+	}
+	if mode != 1 {
 		opts.OCITrustPolicy = OCIPolicy(c.Level, ov, stores, ids, "")
 	}
 	if c.PM != 0 {
@@ -157,17 +174,18 @@ type blobSpec struct {
 }
 
 type kase struct {
-	Family string            `json:"family"`
-	Env    *envelope         `json:"env"`
-	Facts  *facts            `json:"facts"`
-	Kind   string            `json:"kind"` // oci | blob | top
-	Cfg    cfg               `json:"config"`
-	Md     map[string]string `json:"required_metadata,omitempty"`
-	What   string            `json:"presented"` // how the presented artifact relates to the signed one
-	Desc   *tgt              `json:"descriptor,omitempty"`
-	Gen    *[3]*tgt          `json:"descgen,omitempty"` // per sha256/384/512; nil = the generator fails
-	Blob   *blobSpec         `json:"blob,omitempty"`
-	Rest   string            `json:"rest"`
+	Family  string            `json:"family"`
+	History string            `json:"history,omitempty"` // calls made on one long-lived verifier, in this order
+	Env     *envelope         `json:"env"`
+	Facts   *facts            `json:"facts"`
+	Kind    string            `json:"kind"` // oci | blob | top
+	Cfg     cfg               `json:"config"`
+	Md      map[string]string `json:"required_metadata,omitempty"`
+	What    string            `json:"presented"` // how the presented artifact relates to the signed one
+	Desc    *tgt              `json:"descriptor,omitempty"`
+	Gen     *[3]*tgt          `json:"descgen,omitempty"` // per sha256/384/512; nil = the generator fails
+	Blob    *blobSpec         `json:"blob,omitempty"`
+	Rest    string            `json:"rest"`
 	// observation
 	ObsErr     string `json:"obs_err"`
 	ObsOut     string `json:"obs_outcome"`
@@ -318,7 +336,11 @@ func (r *runner) rest(e *envelope, c cfg, blob bool) (ok, touched, avail bool) {
 	if m, hit := r.restMem[key]; hit {
 		return m[0], m[1], true
 	}
-	v, in, err := r.w.build(c, blob)
+	mode := 0
+	if blob {
+		mode = 1
+	}
+	v, in, err := r.w.build(c, mode)
 	if err != nil {
 		return false, false, false
 	}
@@ -340,12 +362,60 @@ func digests(b []byte) [3]string {
 	return [3]string{"sha256:" + hex.EncodeToString(h1[:]), "sha384:" + hex.EncodeToString(h2[:]), "sha512:" + hex.EncodeToString(h3[:])}
 }
 
-func (r *runner) run(k *kase) {
+func (r *runner) run(k *kase) { r.exec(k, nil) }
+
+// history makes the calls of steps one after the other on ONE verifier
+// (constructed once, with both an OCI and a blob policy of configuration c).
+// Every step is a case of its own, judged on its own input. The control runs
+// that measure the rest of processSignature are all made before the first
+// step, so that nothing else happens in the process between two steps. In a
+// replay of one step the steps before it are executed too.
+func (r *runner) history(name string, c cfg, steps []*kase) {
+	first := r.id
+	want := false
+	for j := range steps {
+		if r.cw.Want(first + int64(j)) {
+			want = true
+		}
+	}
+	if !want {
+		for range steps {
+			r.id++
+			r.rng.Bool()
+			r.rng.Bool()
+		}
+		return
+	}
+	v, in, err := r.w.build(c, 2)
+	if err != nil {
+		panic(fmt.Sprintf("c01: history %s: %v", name, err))
+	}
+	for j, k := range steps {
+		k.Cfg = c
+		k.Family = "history"
+		k.History = fmt.Sprintf("%s step %d/%d", name, j+1, len(steps))
+		if k.Env.facts.intact() {
+			src := k.Env
+			if src.facts.Decode == nil && src.sibling != nil {
+				src = src.sibling
+			}
+			r.rest(src, c, k.Kind != "oci")
+		}
+	}
+	sh := &shared{v: v, in: in}
+	for _, k := range steps {
+		r.exec(k, sh)
+	}
+	r.cw.Count("history", name)
+}
+
+func (r *runner) exec(k *kase, sh *shared) {
 	my := r.id
 	r.id++
 	// drawn before the replay filter so that the random stream is the same in a replay
 	restOK, restTouch := r.rng.Bool(), r.rng.Bool()
-	if !r.cw.Want(my) {
+	wanted := r.cw.Want(my)
+	if !wanted && sh == nil {
 		return
 	}
 	e := k.Env
@@ -353,10 +423,22 @@ func (r *runner) run(k *kase) {
 	k.Facts = f
 	blob := k.Kind != "oci"
 	levelValid := true
-	v, in, berr := r.w.build(k.Cfg, blob)
+	var v bothVerifier
+	var in *instr
+	var berr error
+	if sh != nil {
+		v, in = sh.v, sh.in
+	} else {
+		mode := 0
+		if blob {
+			mode = 1
+		}
+		v, in, berr = r.w.build(k.Cfg, mode)
+	}
 	if berr != nil {
 		levelValid = false
 	}
+	before := in.count()
 	// the abstracted rest
 	k.Rest = "irrelevant"
 	if levelValid && k.Cfg.Level != "skip" && f.intact() {
@@ -433,7 +515,10 @@ func (r *runner) run(k *kase) {
 			k.ObsMsg = Short(err.Error(), 160)
 		}
 	}
-	k.ObsTouched = in.touched()
+	k.ObsTouched = in.count() > before
+	if !wanted {
+		return
+	}
 	// input term
 	var call string
 	presentedDiffers := false
@@ -766,7 +851,10 @@ func runC01(a *Args) error {
 			{"mediatype", func(t tgt, h int) [3]*tgt { d := &tgt{MT: "text/plain", Dg: t.Dg, Sz: t.Sz}; return [3]*tgt{d, d, d} }},
 			{"digest+mediatype-empty", func(t tgt, h int) [3]*tgt { d := &tgt{MT: "", Dg: flipHex(t.Dg), Sz: t.Sz}; return [3]*tgt{d, d, d} }},
 			{"size+mediatype-empty", func(t tgt, h int) [3]*tgt { d := &tgt{MT: "", Dg: t.Dg, Sz: t.Sz - 1}; return [3]*tgt{d, d, d} }},
-			{"all", func(t tgt, h int) [3]*tgt { d := &tgt{MT: "text/plain", Dg: flipHex(t.Dg), Sz: 1}; return [3]*tgt{d, d, d} }},
+			{"all", func(t tgt, h int) [3]*tgt {
+				d := &tgt{MT: "text/plain", Dg: flipHex(t.Dg), Sz: 1}
+				return [3]*tgt{d, d, d}
+			}},
 		}
 		mds := []map[string]string{nil, {"k1": "v1"}, {"k3": "v3"}, {"k1": "v1", "k3": "v3"}, {"k3": ""}}
 		lv := 0
@@ -1131,6 +1219,266 @@ func runC01(a *Args) error {
 				gen := [3]*tgt{&t, &t, &t}
 				r.run(&kase{Family: "level-skip-or-illegal", Env: e, Kind: "blob", Cfg: c, What: []string{"equal", "digest", "equal"}[j], Gen: &gen})
 			}
+		}
+	}
+
+	eqD := tgt{MT: baseTarget.MT, Dg: baseTarget.Dg, Sz: baseTarget.Sz}
+	q := func(s string) string { b, _ := json.Marshal(s); return string(b) }
+	mtq, dgq := q(baseTarget.MT), q(baseTarget.Dg)
+	// payloads that omit members, spell them unusually, or carry empty values
+	type rawPayload struct {
+		what string
+		body string
+	}
+	omit := []rawPayload{
+		{"target-empty-object", `{"targetArtifact":{}}`},
+		{"no-digest", `{"targetArtifact":{"mediaType":` + mtq + `,"size":528}}`},
+		{"no-size", `{"targetArtifact":{"mediaType":` + mtq + `,"digest":` + dgq + `}}`},
+		{"no-mediatype", `{"targetArtifact":{"digest":` + dgq + `,"size":528}}`},
+		{"only-annotations", `{"targetArtifact":{"annotations":{"k9":"v9"}}}`},
+		{"size-zero", `{"targetArtifact":{"mediaType":` + mtq + `,"digest":` + dgq + `,"size":0}}`},
+		{"mediatype-empty", `{"targetArtifact":{"mediaType":"","digest":` + dgq + `,"size":528}}`},
+		{"digest-empty", `{"targetArtifact":{"mediaType":` + mtq + `,"digest":"","size":528}}`},
+		{"annotations-null", `{"targetArtifact":{"mediaType":` + mtq + `,"digest":` + dgq + `,"size":528,"annotations":null}}`},
+		{"annotations-empty", `{"targetArtifact":{"mediaType":` + mtq + `,"digest":` + dgq + `,"size":528,"annotations":{}}}`},
+		{"annotations-other-key", `{"targetArtifact":{"mediaType":` + mtq + `,"digest":` + dgq + `,"size":528,"annotations":{"k5":"v5"}}}`},
+		{"annotation-empty-value", `{"targetArtifact":{"mediaType":` + mtq + `,"digest":` + dgq + `,"size":528,"annotations":{"k4":"","k1":""}}}`},
+		{"no-target", `{"other":{"mediaType":` + mtq + `,"digest":` + dgq + `,"size":528}}`},
+		{"target-null", `{"targetArtifact":null}`},
+	}
+	syntax := []rawPayload{
+		{"keys-other-case", `{"TARGETARTIFACT":{"MediaType":` + mtq + `,"DIGEST":` + dgq + `,"Size":528,"Annotations":{"k1":"v1"}}}`},
+		{"key-escaped", `{"\u0074argetArtifact":{"mediaType":` + mtq + `,"digest":` + dgq + `,"size":528}}`},
+		{"duplicate-digest-last-bad", `{"targetArtifact":{"mediaType":` + mtq + `,"digest":` + dgq + `,"size":528,"digest":` + q(flipHex(baseTarget.Dg)) + `}}`},
+		{"duplicate-digest-last-good", `{"targetArtifact":{"mediaType":` + mtq + `,"digest":` + q(flipHex(baseTarget.Dg)) + `,"size":528,"digest":` + dgq + `}}`},
+		{"duplicate-size", `{"targetArtifact":{"size":528,"mediaType":` + mtq + `,"digest":` + dgq + `,"size":529}}`},
+		{"duplicate-annotation-key", `{"targetArtifact":{"mediaType":` + mtq + `,"digest":` + dgq + `,"size":528,"annotations":{"k1":"x","k1":"v1"}}}`},
+		{"duplicate-annotations-member", `{"targetArtifact":{"mediaType":` + mtq + `,"digest":` + dgq + `,"size":528,"annotations":{"k1":"v1"},"annotations":{"k2":"v2"}}}`},
+		{"annotation-key-other-case", `{"targetArtifact":{"mediaType":` + mtq + `,"digest":` + dgq + `,"size":528,"annotations":{"K1":"v1","k2":"V2"}}}`},
+		{"annotation-value-spaces", `{"targetArtifact":{"mediaType":` + mtq + `,"digest":` + dgq + `,"size":528,"annotations":{"k1":" v1","k2":"v2 "}}}`},
+		{"digest-is-number", `{"targetArtifact":{"mediaType":` + mtq + `,"digest":528,"size":528}}`},
+		{"digest-is-array", `{"targetArtifact":{"mediaType":` + mtq + `,"digest":[` + dgq + `],"size":528}}`},
+		{"mediatype-is-object", `{"targetArtifact":{"mediaType":{"v":` + mtq + `},"digest":` + dgq + `,"size":528}}`},
+		{"size-float", `{"targetArtifact":{"mediaType":` + mtq + `,"digest":` + dgq + `,"size":528.0}}`},
+		{"size-exponent", `{"targetArtifact":{"mediaType":` + mtq + `,"digest":` + dgq + `,"size":5.28e2}}`},
+		{"size-overflow", `{"targetArtifact":{"mediaType":` + mtq + `,"digest":` + dgq + `,"size":99999999999999999999}}`},
+		{"size-negative", `{"targetArtifact":{"mediaType":` + mtq + `,"digest":` + dgq + `,"size":-528}}`},
+		{"digest-uppercase-hex", `{"targetArtifact":{"mediaType":` + mtq + `,"digest":` + q("sha256:"+strings.ToUpper(strings.TrimPrefix(baseTarget.Dg, "sha256:"))) + `,"size":528}}`},
+		{"mediatype-other-case", `{"targetArtifact":{"mediaType":` + q(strings.ToUpper(baseTarget.MT)) + `,"digest":` + dgq + `,"size":528}}`},
+		{"leading-whitespace", " \n\t" + `{"targetArtifact":{"mediaType":` + mtq + `,"digest":` + dgq + `,"size":528}}` + "\n"},
+		{"byte-order-mark", "\xef\xbb\xbf" + `{"targetArtifact":{"mediaType":` + mtq + `,"digest":` + dgq + `,"size":528}}`},
+		{"annotations-is-array", `{"targetArtifact":{"mediaType":` + mtq + `,"digest":` + dgq + `,"size":528,"annotations":["k1","v1"]}}`},
+	}
+	rawEnv := map[string]*envelope{}
+	getRaw := func(format string, p rawPayload) *envelope {
+		k := format + "|" + p.what
+		if e, ok := rawEnv[k]; ok {
+			return e
+		}
+		e := w.signRaw(format, "ec256", []byte(p.body), "payload "+p.what)
+		e.sibling = getFresh(format, "ec256", 2, false)
+		rawEnv[k] = e
+		return e
+	}
+	blobGenOf := func(d tgt) *[3]*tgt {
+		t := tgt{MT: d.MT, Dg: d.Dg, Sz: d.Sz}
+		return &[3]*tgt{&t, &t, &t}
+	}
+
+	// ---- family 8: payloads omitting members / unusual but legal JSON, each on its own ----
+	{
+		descs := []named{{"equal", eqD}, {"zero", tgt{}}, {"mediatype-empty", tgt{MT: "", Dg: eqD.Dg, Sz: eqD.Sz}}, {"size-zero", tgt{MT: eqD.MT, Dg: eqD.Dg, Sz: 0}}, {"size-negative", tgt{MT: eqD.MT, Dg: eqD.Dg, Sz: -528}}}
+		mds := []map[string]string{nil, {}, {"k1": "v1"}, {"k4": ""}, {"k1": ""}, {"k2": "v2"}}
+		all := append(append([]rawPayload(nil), omit...), syntax...)
+		for _, format := range formats {
+			for pi, p := range all {
+				e := getRaw(format, p)
+				for di, d := range descs {
+					for mi, md := range mds {
+						if !thorough && (pi+di+mi)%3 != 0 && !(di == 0 && mi == 2) {
+							continue
+						}
+						dd := d.T
+						c := goodCfg(rng, rng.Intn(24))
+						if (di+mi)%2 == 0 {
+							r.run(&kase{Family: "payload-syntax", Env: e, Kind: "oci", Cfg: c, Md: md, What: d.What, Desc: &dd})
+						} else {
+							what := d.What
+							if dd.MT == "" && what == "mediatype-empty" {
+								what = "equal"
+							}
+							r.run(&kase{Family: "payload-syntax", Env: e, Kind: "blob", Cfg: c, Md: md, What: what, Gen: blobGenOf(dd)})
+						}
+					}
+				}
+			}
+		}
+	}
+
+	// ---- family 9: comparisons that must be exact: case, spaces, algorithm prefix; the odd metadata pair at every position ----
+	{
+		hexpart := strings.TrimPrefix(baseTarget.Dg, "sha256:")
+		descs := []named{
+			{"digest-uppercase-hex", tgt{MT: eqD.MT, Dg: "sha256:" + strings.ToUpper(hexpart), Sz: eqD.Sz}},
+			{"digest-algorithm-uppercase", tgt{MT: eqD.MT, Dg: "SHA256:" + hexpart, Sz: eqD.Sz}},
+			{"digest-other-algorithm-same-hex", tgt{MT: eqD.MT, Dg: "sha512:" + hexpart, Sz: eqD.Sz}},
+			{"digest-without-algorithm", tgt{MT: eqD.MT, Dg: hexpart, Sz: eqD.Sz}},
+			{"digest-trailing-space", tgt{MT: eqD.MT, Dg: eqD.Dg + " ", Sz: eqD.Sz}},
+			{"digest-prefix-only", tgt{MT: eqD.MT, Dg: eqD.Dg[:len(eqD.Dg)-1], Sz: eqD.Sz}},
+			{"digest-extended", tgt{MT: eqD.MT, Dg: eqD.Dg + "0", Sz: eqD.Sz}},
+			{"mediatype-other-case", tgt{MT: strings.ToUpper(eqD.MT), Dg: eqD.Dg, Sz: eqD.Sz}},
+			{"mediatype-trailing-space", tgt{MT: eqD.MT + " ", Dg: eqD.Dg, Sz: eqD.Sz}},
+			{"mediatype-with-parameter", tgt{MT: eqD.MT + "; charset=utf-8", Dg: eqD.Dg, Sz: eqD.Sz}},
+			{"mediatype-prefix-only", tgt{MT: "application/vnd.oci.image.manifest.v1", Dg: eqD.Dg, Sz: eqD.Sz}},
+			{"size-zero", tgt{MT: eqD.MT, Dg: eqD.Dg, Sz: 0}},
+			{"size-negative", tgt{MT: eqD.MT, Dg: eqD.Dg, Sz: -eqD.Sz}},
+			{"size-plus-2^32", tgt{MT: eqD.MT, Dg: eqD.Dg, Sz: eqD.Sz + (1 << 32)}},
+		}
+		mds := []map[string]string{nil, {"k1": "v1"}}
+		for _, format := range formats {
+			e := getFresh(format, "ec256", 2, false)
+			for _, d := range descs {
+				for _, md := range mds {
+					dd := d.T
+					r.run(&kase{Family: "exact-comparison", Env: e, Kind: "oci", Cfg: goodCfg(rng, rng.Intn(24)), Md: md, What: d.What, Desc: &dd})
+					r.run(&kase{Family: "exact-comparison", Env: e, Kind: "blob", Cfg: goodCfg(rng, rng.Intn(24)), Md: md, What: d.What, Gen: blobGenOf(dd)})
+				}
+			}
+			// required metadata that differs from the signed annotations only by case / spaces / emptiness
+			mdx := []map[string]string{
+				{"k1": "V1"}, {"k1": "v1 "}, {"k1": " v1"}, {"k1 ": "v1"}, {" k1": "v1"}, {"K1": "v1", "k2": "v2"}, {"k1": "v1", "k2": ""},
+				{"k1": "v1", "": ""}, {"": "v1"}, {"k1": "v"}, {"k1": "v11"}, {"k": "v1"}, {"k1k2": "v1v2"},
+			}
+			for _, md := range mdx {
+				d := eqD
+				r.run(&kase{Family: "exact-comparison", Env: e, Kind: "oci", Cfg: goodCfg(rng, rng.Intn(24)), Md: md, What: "equal", Desc: &d})
+				r.run(&kase{Family: "exact-comparison", Env: e, Kind: "blob", Cfg: goodCfg(rng, rng.Intn(24)), Md: md, What: "equal", Gen: blobGenOf(tgt{Dg: eqD.Dg, Sz: eqD.Sz})})
+			}
+			// annotations a..e signed; five pairs required with the odd one (missing key / other value /
+			// empty value) at every position of the sorted keys; repeated because Go iterates maps in random order
+			five := tgt{MT: eqD.MT, Dg: eqD.Dg, Sz: eqD.Sz, Ann: map[string]string{"a": "1", "b": "2", "c": "3", "d": "4", "e": "5"}}
+			e5 := w.sign(format, "ec256", payloadJSON(five), "", false, "fresh(five annotations)")
+			keys := []string{"a", "b", "c", "d", "e"}
+			reps := 3
+			if thorough {
+				reps = 12
+			}
+			for pos := range keys {
+				for odd := 0; odd < 3; odd++ {
+					for rep := 0; rep < reps; rep++ {
+						md := map[string]string{}
+						for i, k := range keys {
+							md[k] = fmt.Sprint(i + 1)
+						}
+						switch odd {
+						case 0:
+							delete(md, keys[pos])
+							md[keys[pos]+"x"] = fmt.Sprint(pos + 1)
+						case 1:
+							md[keys[pos]] = "9"
+						case 2:
+							md[keys[pos]] = ""
+						}
+						d := eqD
+						if rep%2 == 0 {
+							r.run(&kase{Family: "metadata-position", Env: e5, Kind: "oci", Cfg: goodCfg(rng, rng.Intn(24)), Md: md, What: "equal", Desc: &d})
+						} else {
+							r.run(&kase{Family: "metadata-position", Env: e5, Kind: "blob", Cfg: goodCfg(rng, rng.Intn(24)), Md: md, What: "equal", Gen: blobGenOf(tgt{Dg: eqD.Dg, Sz: eqD.Sz})})
+						}
+					}
+				}
+			}
+			all5 := map[string]string{"a": "1", "b": "2", "c": "3", "d": "4", "e": "5"}
+			d := eqD
+			r.run(&kase{Family: "metadata-position", Env: e5, Kind: "oci", Cfg: goodCfg(rng, rng.Intn(24)), Md: all5, What: "equal", Desc: &d})
+		}
+	}
+
+	// ---- family 10: histories on ONE long-lived verifier ----
+	{
+		content := []byte("c01 history blob: pack my box with five dozen liquor jugs\n")
+		modified := append([]byte(nil), content...)
+		modified[4] ^= 0x01
+		ds := digests(content)
+		step := func(e *envelope, kind string, what string, d tgt, md map[string]string) *kase {
+			k := &kase{Env: e, Kind: kind, Md: md, What: what}
+			switch kind {
+			case "oci":
+				dd := d
+				k.Desc = &dd
+			case "blob":
+				k.Gen = blobGenOf(tgt{MT: "", Dg: d.Dg, Sz: d.Sz})
+			}
+			return k
+		}
+		badD := tgt{MT: eqD.MT, Dg: flipHex(eqD.Dg), Sz: eqD.Sz}
+		hi := 0
+		for _, format := range formats {
+			A := getFresh(format, "ec256", 2, false)  // annotations k1=v1, k2=v2
+			A1 := getFresh(format, "ec256", 1, false) // annotation k1=v1
+			B := getFresh(format, "ec256", 0, false)  // no annotations
+			otherT := tgt{MT: eqD.MT, Dg: flipHex(eqD.Dg), Sz: eqD.Sz + 100, Ann: map[string]string{"k1": "other", "k3": "v3"}}
+			O := w.sign(format, "ec256", payloadJSON(otherT), "", false, "fresh(other target, k1=other, k3=v3)")
+			otherD := tgt{MT: otherT.MT, Dg: otherT.Dg, Sz: otherT.Sz}
+			X := getFresh(format, "other", 2, false) // a signer the store (rootA only) does not know
+			T := newEnvelope("reassembled(payload of other target into A)", format, "ec256", false, reassemble(A, O, [4]bool{false, false, true, false}))
+			CT := w.sign(format, "ec256", payloadJSON(tgt{MT: eqD.MT, Dg: eqD.Dg, Sz: eqD.Sz, Ann: annSets[2]}), "application/json", false, "fresh(content type json)")
+			blobT := tgt{MT: "text/plain", Dg: ds[0], Sz: int64(len(content)), Ann: annSets[1]}
+			BL := w.sign(format, "ec256", payloadJSON(blobT), "", false, "fresh(blob payload)")
+			blobT0 := tgt{MT: "text/plain", Dg: ds[0], Sz: int64(len(content))}
+			BL0 := w.sign(format, "ec256", payloadJSON(blobT0), "", false, "fresh(blob payload, no annotations)")
+			top := func(e *envelope, what string, c []byte, mt string, md map[string]string) *kase {
+				bw := "equal"
+				if what != "equal" {
+					bw = what
+				}
+				return &kase{Env: e, Kind: "top", Md: md, What: what, Blob: &blobSpec{What: bw, MT: mt, content: c}}
+			}
+			k1 := map[string]string{"k1": "v1"}
+			k12 := map[string]string{"k1": "v1", "k2": "v2"}
+			k3 := map[string]string{"k3": "v3"}
+			for _, kind := range []string{"oci", "blob"} {
+				other := map[string]string{"oci": "blob", "blob": "oci"}[kind]
+				nextCfg := func() cfg { hi++; return goodCfg(rng, hi%24) }
+				// an annotation of an earlier signature must not satisfy a later requirement
+				r.history("annotation-leftover/"+kind, nextCfg(), []*kase{
+					step(A, kind, "equal", eqD, k12), step(B, kind, "equal", eqD, k1), step(A, kind, "equal", eqD, k1),
+					step(B, kind, "equal", eqD, nil), step(A1, kind, "equal", eqD, k12), step(B, kind, "equal", eqD, k12)})
+				r.history("annotation-leftover-after-failure/"+kind, nextCfg(), []*kase{
+					step(A, kind, "digest", badD, k1), step(B, kind, "equal", eqD, k1),
+					step(O, kind, "equal", otherD, k3), step(A, kind, "equal", eqD, k3), step(B, kind, "equal", eqD, k3)})
+				r.history("annotation-leftover-across-entry-points/"+kind, nextCfg(), []*kase{
+					step(A, kind, "equal", eqD, k1), step(B, other, "equal", eqD, k1), step(A, other, "equal", eqD, nil), step(B, kind, "equal", eqD, k12)})
+				// members of an earlier payload must not fill in members a later payload omits
+				for oi, p := range omit {
+					if !thorough && kind == "blob" && oi%2 == 1 {
+						continue
+					}
+					e := getRaw(format, p)
+					r.history("member-leftover/"+p.what+"/"+kind, nextCfg(), []*kase{
+						step(A, kind, "equal", eqD, nil), step(e, kind, "equal", eqD, nil), step(A, kind, "equal", eqD, k1), step(e, kind, "equal", eqD, k1)})
+				}
+				// the verdict follows the presented descriptor and the required metadata, call by call
+				r.history("verdict-flips/"+kind, nextCfg(), []*kase{
+					step(A, kind, "equal", eqD, nil), step(A, kind, "digest", badD, nil), step(A, kind, "equal", eqD, nil),
+					step(A, kind, "equal", eqD, k3), step(A, kind, "equal", eqD, k1), step(A, kind, "size+1", tgt{MT: eqD.MT, Dg: eqD.Dg, Sz: eqD.Sz + 1}, k1),
+					step(A, kind, "equal", eqD, k12)})
+				r.history("fail-then-pass/"+kind, nextCfg(), []*kase{
+					step(A, kind, "digest", badD, nil), step(A, kind, "equal", eqD, nil), step(O, kind, "equal-to-A", eqD, nil), step(O, kind, "equal", otherD, nil), step(A, kind, "equal-to-O", otherD, nil)})
+				// a tampered or foreign envelope after a good one for the same descriptor, and back
+				r.history("tampered-after-good/"+kind, nextCfg(), []*kase{
+					step(A, kind, "equal", eqD, nil), step(T, kind, "equal", eqD, nil), step(T, kind, "equal-to-payload", otherD, nil),
+					step(A, kind, "equal", eqD, nil), step(CT, kind, "equal", eqD, nil), step(A, kind, "equal", eqD, k1)})
+				strictA := cfg{Level: "strict", Store: 0}
+				r.history("untrusted-after-trusted/"+kind, strictA, []*kase{
+					step(A, kind, "equal", eqD, nil), step(X, kind, "equal", eqD, nil), step(A, kind, "equal", eqD, nil), step(X, kind, "equal", eqD, k1)})
+			}
+			// notation.VerifyBlob: the blob decides, call by call
+			hi++
+			r.history("blob-content-flips", goodCfg(rng, hi%24), []*kase{
+				top(BL, "equal", content, "text/plain", nil), top(BL, "content-modified", modified, "text/plain", nil), top(BL, "equal", content, "", k1),
+				top(BL0, "equal", content, "text/plain", k1), top(BL, "mediatype", content, "application/json", nil), top(BL, "equal", content, "text/plain", k1),
+				top(BL0, "content-truncated", content[:10], "", nil), top(BL0, "equal", content, "", nil)})
 		}
 	}
 	cw.Set("skipped_no_control_run", r.skipped)
